@@ -179,6 +179,12 @@ def strings(tier, seed, pvl):
                      "a = {}\nEND\n", "{} = o\n b = 2\nEND_OBJECT = o\n",
                      "BEGIN_GROUP = g\n x = 1\n{} = g\n", "a = 1 {}\n"):
             yield "keyword-lookalikes", form.format(kw)
+    # lone surrogates (what errors="surrogateescape" makes of binary data)
+    for sur in ("\ud800", "\udc00", "\udfff"):
+        for form in ("a = 1\n {} b = 2\nGROUP = g\n", "{} = 1\n", "a = {}\n", "a = (1, {})\n",
+                     "a = 1 {}\nEND\n", "a = \"q{}\"\n", "/* {} */ a = 1\n", "a = 1 <{}>\n",
+                     "GROUP = g\n a = 1\n {}\nEND_GROUP\n", "a = x{}y\n", "{}"):
+            yield "lone-surrogates", form.format(sur)
     # numbers at and beyond what int(), float() and Decimal() take
     big = ["1E400", "-1e-400", "1E99999", "1E1000000000000000000",
            "2.5e-99999999999999999999", ".5E+12345678901234567890123",
@@ -310,7 +316,7 @@ def finish_kwargs(rec, tier):
                            "strings[generated-truncation]",
                            "strings[corpus-splice]", "strings[value-context]",
                            "strings[atom-pairs]", "strings[extreme-numbers]",
-                           "strings[big-vocabulary]", "strings[keyword-lookalikes]",
+                           "strings[big-vocabulary]", "strings[keyword-lookalikes]", "strings[lone-surrogates]",
                            "loads_through_a_long_lived_parser",
                            "outcome[default+Decimal][ok]",
                            "outcome[default][LexerError]", "outcome[PVL][ok]"),
